@@ -307,6 +307,9 @@ func (d *badgerNodeDB) GetNode(root node.Root, ptr *node.Pointer) (node.Node, er
 	if root.Version < d.meta.getEarliestVersion() {
 		return nil, api.ErrNodeNotFound
 	}
+	if err := api.VerifReadFault("badger.getnode"); err != nil {
+		return nil, err
+	}
 
 	tx := d.db.NewTransactionAt(versionToTs(root.Version), false)
 	defer tx.Discard()
